@@ -47,6 +47,7 @@ type E7Spec struct {
 	SharedBacking []FuncRuleSpec     `json:"shared_backing"`
 	LossyIdent    []LossyIdentSpec   `json:"lossy_identifier"`
 	ListFields    []ListFieldSpec    `json:"list_fields"`
+	LostUpdate    []FuncRuleSpec     `json:"lost_update"`
 }
 
 type FuncRuleSpec struct {
@@ -178,6 +179,9 @@ func runE7(p *Program, sp *Spec, c *Collector) {
 	}
 	for _, lf := range t.ListFields {
 		runListFields(p, c, lf)
+	}
+	for _, lu := range t.LostUpdate {
+		runLostUpdate(p, c, lu)
 	}
 	for _, n := range t.NoExit {
 		runNoExit(p, sp, c, n)
@@ -2947,5 +2951,121 @@ func runListFields(p *Program, c *Collector, lf ListFieldSpec) {
 	}
 	if readers < lf.Min {
 		c.Anchor(lf.Props, "E7: list field %s.%s: %d reading functions found, %d confirmed by hand", lf.Type, lf.Field, readers, lf.Min)
+	}
+}
+
+// ---------------------------------------------------------------------------------------------
+// lost update: a function calls an own function that fills a package-level variable and then, on a path with no read of that
+// variable in between, re-assigns the variable as a whole (nil, a fresh value): what the callee produced is thrown away.
+func runLostUpdate(p *Program, c *Collector, a FuncRuleSpec) {
+	st := getStateAn(p)
+	for _, fn := range expandFuncs(p, c, a.Funcs, a.Props...) {
+		if len(fn.Blocks) == 0 {
+			continue
+		}
+		// whole-variable kills in fn
+		type kill struct {
+			g  *ssa.Global
+			in *ssa.Store
+		}
+		var kills []kill
+		for _, b := range fn.Blocks {
+			for _, in := range b.Instrs {
+				if s, ok := in.(*ssa.Store); ok {
+					if g, ok := s.Addr.(*ssa.Global); ok && p.Own[g.Pkg.Pkg] {
+						// value independent of the variable itself
+						dep := false
+						var walk func(v ssa.Value, d int)
+						walk = func(v ssa.Value, d int) {
+							if d > 6 || v == nil || dep {
+								return
+							}
+							if loadedGlobal(v) == g {
+								dep = true
+								return
+							}
+							if i2, ok := v.(ssa.Instruction); ok {
+								var ops []*ssa.Value
+								for _, o := range i2.Operands(ops) {
+									if o != nil && *o != nil {
+										walk(*o, d+1)
+									}
+								}
+							}
+						}
+						walk(s.Val, 0)
+						if !dep {
+							kills = append(kills, kill{g, s})
+						}
+					}
+				}
+			}
+		}
+		if len(kills) == 0 {
+			continue
+		}
+		var bad ssa.Instruction
+		var what string
+		for _, k := range kills {
+			// calls in fn whose callee (transitively) writes k.g
+			for _, b := range fn.Blocks {
+				for i, in := range b.Instrs {
+					call, ok := in.(*ssa.Call)
+					if !ok || bad != nil {
+						continue
+					}
+					callee := call.Call.StaticCallee()
+					if callee == nil || callee.Pkg == nil || !p.Own[callee.Pkg.Pkg] || !st.allWrites(callee)[k.g] {
+						continue
+					}
+					// forward search from the call to the kill, stopping at reads of k.g (and at other calls that may read it)
+					type pt struct {
+						b *ssa.BasicBlock
+						i int
+					}
+					seen := map[*ssa.BasicBlock]bool{}
+					stack := []pt{{b, i + 1}}
+					for len(stack) > 0 && bad == nil {
+						cur := stack[len(stack)-1]
+						stack = stack[:len(stack)-1]
+						stopped := false
+						for j := cur.i; j < len(cur.b.Instrs); j++ {
+							x := cur.b.Instrs[j]
+							if x == ssa.Instruction(k.in) {
+								bad = k.in
+								what = k.g.Name() + " is filled by " + shortFn(p.FuncKey(callee)) + " (" + p.InstrPos(call) + ") and re-assigned here before anything reads it"
+								stopped = true
+								break
+							}
+							if u, ok := x.(*ssa.UnOp); ok && loadedGlobal(u) == k.g {
+								stopped = true
+								break
+							}
+							if c2, ok := x.(*ssa.Call); ok {
+								if f2 := c2.Call.StaticCallee(); f2 == nil || f2.Pkg == nil || (p.Own[f2.Pkg.Pkg] && (len(st.allReads(f2)) > 0 && func() bool { _, r := st.allReads(f2)[k.g]; return r }())) {
+									stopped = true
+									break
+								}
+							}
+						}
+						if stopped {
+							continue
+						}
+						for _, sx := range cur.b.Succs {
+							if !seen[sx] {
+								seen[sx] = true
+								stack = append(stack, pt{sx, 0})
+							}
+						}
+					}
+				}
+			}
+		}
+		key := "lostupdate:" + p.FuncKey(fn)
+		if bad != nil {
+			c.Ob(a.Props, "E7.lost-update", key, Violated, a.What+": "+what+": the result of the call is thrown away", p.InstrPos(bad), false)
+		} else {
+			c.Ob(a.Props, "E7.lost-update", key, Discharged, "no package-level result is re-assigned between the call that produces it and its first use", p.FuncPos(fn), true)
+		}
 	}
 }
